@@ -62,3 +62,23 @@ def alone_vs_beside(ctx, d, srv, scripts, rng, key, labels=None, name='kv-beside
                               'alone: %s' % (j + 1, lab, ident, str(got)[:300], str(alone[ci][j])[:300]), {'request': q.hex()[:600]})
                 break
     return True
+
+
+def header_variant(rng, now):
+    """Keyword arguments for rig.build_request: the optional request-header fields few clients send (each value is
+    acceptable on its own, or refused for a reason of its own: none of them may colour another client's requests)."""
+    from kmip.core import enums
+    k = rng.randrange(9)
+    if k == 0:
+        return 'time-stamp', {'time_stamp': now - rng.randrange(0, 55)}
+    if k == 1:
+        return 'asynchronous', {'asynchronous': True}
+    if k == 2:
+        return 'not-asynchronous', {'asynchronous': False}
+    if k == 3:
+        return 'max-size', {'max_size': rng.choice((64, 300, 2 ** 16))}
+    if k == 4:
+        return 'continue', {'error_option': enums.BatchErrorContinuationOption.CONTINUE}
+    if k == 5:
+        return 'undo', {'error_option': enums.BatchErrorContinuationOption.UNDO}
+    return 'plain', {}
